@@ -56,9 +56,9 @@ CLAIMED = {
         note="Trusted: TLC, ScriptedProcess, exact-integer sensor. Two controls: only the mean and variance relations (quantised variance).",
         ref="5 (C07)"),
     "C15": dict(
-        technique="TLA+ spec Path.tla (running-sum predicates + design model of the epsilon-refinement) model-checked by TLC; paths of the real simulators with every random source scripted trace-validated by TLC",
-        text="TLC checks the refinement design (insert until every gap <= epsilon, INCLUDING the gap that ends at maturity) for all grids with <= 3 jump times on 8 ticks and 6 epsilons. The real direct / Markov-chain / coupled one-dimensional simulators in fixed-date, jump-time and maximum-step modes are run with scripted jump counts, jump times, jump sizes (state increments) and recognisable Brownian increments over several product-date sets; TLC validates: start at 0, strictly increasing times ending at maturity, product dates / jump times present, jump path = running sum of all jumps up to each time (both coupled components), k-th diffusion increment = sigma * sqrt(dt_k) * k-th variate, every step <= epsilon; the two refinement functions are also validated directly on integer arrays.",
-        note="Trusted: TLC, scripted sources, exact-integer sensor. Copula simulators are not driven yet.",
+        technique="TLA+ specs Path.tla (running-sum predicates + design model of the epsilon-refinement) and Series.tla (the series-representation simulator as a function of the random numbers it consumes, in order) model-checked by TLC; paths of the real simulators with every random source scripted trace-validated by TLC",
+        text="TLC checks the refinement design (insert until every gap <= epsilon, INCLUDING the gap that ends at maturity) for all grids with <= 3 jump times on 8 ticks and 6 epsilons. The real direct / Markov-chain / coupled one-dimensional simulators in fixed-date, jump-time and maximum-step modes are run with scripted jump counts, jump times, jump sizes (state increments) and recognisable Brownian increments over several product-date sets; TLC validates: start at 0, strictly increasing times ending at maturity, product dates / jump times present, jump path = running sum of all jumps up to each time (both coupled components), k-th diffusion increment = sigma * sqrt(dt_k) * k-th variate, every step <= epsilon; the two refinement functions are also validated directly on integer arrays. The two- and three-dimensional copula chain and the copula coupling are driven the same way (per-row diffusion coefficients). Series.tla: the series-representation simulator of a 2-d Levy copula process with Poisson counts, the stream of uniforms and the normals scripted and the copula / tail-integral inverses replaced by integer stand-ins: both jump components must equal the running sums of the accepted terms of each date interval exactly, every uniform consumed once in the specified order, diffusion increments as above.",
+        note="Trusted: TLC, scripted sources, exact-integer sensor. The series simulator is validated on uniform date grids (its time grid class is uniform by construction).",
         ref="5 (C15)"),
     "C16": dict(
         technique="TLA+ specs Sde.tla (Euler recursion and closed forms) and Discount.tla (piecewise simple compounding) model-checked by TLC; real MarkovChainSDE / CouplingSDE runs on scripted driver paths and df(t) of every model trace-validated by TLC",
